@@ -24,7 +24,50 @@ def demo(demo_src, wt, tmp):
     r = run(["go", "test", "-count=1", "./..."], cwd=d)
     return r.returncode == 0, (r.stdout + r.stderr)[-1500:]
 
+def recheck():
+    """--recheck: for the seeds already confirmed under /verif/seeded, only re-run the checks (one load per seed)
+    with the current checker and rewrite caught_by / caught in meta.json."""
+    tmp = tempfile.mkdtemp(prefix="wrv_seedre_")
+    wt = os.path.join(tmp, "repo")
+    vdir = os.path.join(tmp, "verif")
+    os.makedirs(vdir)
+    shutil.copy(os.path.join(VERIF, "known_findings.json"), vdir)
+    subprocess.check_call(["git", "-C", "/repo", "worktree", "add", "--detach", "-q", wt, "HEAD"])
+    subprocess.check_call(["go", "build", "-o", os.path.join(tmp, "wrverif"), "./cmd/wrverif"], cwd=os.path.join(VERIF, "checker"), env=ENV)
+    try:
+        for d in sorted(os.listdir(os.path.join(VERIF, "seeded"))):
+            mp = os.path.join(VERIF, "seeded", d, "meta.json")
+            if not os.path.exists(mp):
+                continue
+            meta = json.load(open(mp))
+            patch = os.path.join(VERIF, "seeded", d, "patch.diff")
+            a = run(["git", "apply", "--whitespace=nowarn", patch], cwd=wt)
+            if a.returncode != 0:
+                a = run(["git", "apply", "--3way", "--whitespace=nowarn", patch], cwd=wt)
+            if a.returncode != 0:
+                print(d, "PATCH-DOES-NOT-APPLY (meta kept)")
+                run(["git", "checkout", "--", "."], cwd=wt)
+                continue
+            r = run([os.path.join(tmp, "wrverif"), "-repo", wt, "-verif", vdir, "-all"])
+            caught = {}
+            for l in r.stdout.splitlines():
+                m = re.match(r"^  (C\d\d)\.(\S+)\s", l)
+                if m:
+                    caught.setdefault(m.group(1), set()).add(m.group(1) + "." + m.group(2))
+            caught = {k: sorted(v) for k, v in caught.items()}
+            run(["git", "checkout", "--", "."], cwd=wt)
+            run(["git", "clean", "-fdq"], cwd=wt)
+            meta["caught_by"] = caught
+            meta["caught"] = meta["property"] in caught
+            json.dump(meta, open(mp, "w"), indent=1)
+            print("%-8s caught=%s %s" % (d, meta["caught"], caught if caught else ""))
+    finally:
+        subprocess.call(["git", "-C", "/repo", "worktree", "remove", "--force", wt])
+        shutil.rmtree(tmp, ignore_errors=True)
+
 def main():
+    if len(sys.argv) > 1 and sys.argv[1] == "--recheck":
+        return recheck()
     manifest = json.load(open(os.path.join(VERIF, "MANIFEST.json")))
     claimed = [c["property_id"] for c in manifest["checks"]]
     tmp = tempfile.mkdtemp(prefix="wrv_seed_")
